@@ -80,4 +80,18 @@ def run(rep):
 
 
 def replay(rep, path):
-    raise tlc.MachineryError("replay: rerun ./check C35 with the same VERIF_SEED")
+    """Regenerate the case from its seed (same generator options and cycle count as in the tier that found it:
+    both are tried), simulate it with the current /repo and judge the profile again."""
+    import json
+    d = json.load(open(path))
+    seed = d["cfg"]["seed"]
+    i = seed % 100003
+    for cycles in (100, 300):
+        c = make((seed, dict(OPTS[i % len(OPTS)]), cycles))
+        if not c:
+            continue
+        res, acc, rej, dev = judge.judge("ProfilerTrace", [{k: c[k] for k in ("design", "prof", "stats", "cycles")}])
+        rep.add("traces_validated_against_impl", 1)
+        for r in rej:
+            rep.violation({"component": "profiler", "cfg": d["cfg"], "clauses": sorted(set(r["clauses"]) & set(PROPS)),
+                           "all_failing": r["clauses"], "line": r["line"], "design": c["design"]})
